@@ -1,6 +1,7 @@
 package main
 
 import (
+	"go/token"
 	"strings"
 
 	"golang.org/x/tools/go/ssa"
@@ -41,7 +42,7 @@ func runC18(p *Program, r *Result) {
 		fn    *ssa.Function
 		loop  *natLoop
 		line  ssa.Value
-		parse *ssa.Call
+		parse *lineParse
 		site  scanSite
 	}
 	var infos []loopInfo
@@ -65,22 +66,17 @@ func runC18(p *Program, r *Result) {
 			continue
 		}
 		var line ssa.Value
-		var parse *ssa.Call
 		for b := range loop.Blocks {
 			for _, in := range b.Instrs {
-				if c, ok := in.(*ssa.Call); ok {
-					switch calleeName(&c.Call) {
-					case "(*bufio.Scanner).Text":
-						line = c
-					case s.parser:
-						parse = c
-					}
+				if c, ok := in.(*ssa.Call); ok && calleeName(&c.Call) == "(*bufio.Scanner).Text" {
+					line = c
 				}
 			}
 		}
+		parse := findLineParse(p, fn, loop, s.parser, line)
 		if line == nil || parse == nil {
 			r.cur = "R18.1"
-			r.Unk(fn.String(), "scan-loop", "", "scanner.Text() or the per-line parser call not found in the loop")
+			r.Unk(fn.String(), "scan-loop", "", "scanner.Text() or the per-line parse whose result is appended not found in the loop")
 			continue
 		}
 		infos = append(infos, loopInfo{fn, loop, line, parse, s})
@@ -125,18 +121,13 @@ func runC18(p *Program, r *Result) {
 			if comment || blank {
 				continue
 			}
-			_, parsedOK := errFactFor(atoms, parse, true)
+			parsedOK := parse.errIs(atoms, true)
 			if parsedOK {
 				// the parser's result must be appended on this path
 				appended := false
 				for _, in := range pa.Instrs() {
-					if c, ok := in.(*ssa.Call); ok && isBuiltin(&c.Call, "append") {
-						t := tb.Term(c)
-						for _, sub := range t.Find("Ext") {
-							if sub.Args[0].V == ssa.Value(parse) && sub.S == "0" {
-								appended = true
-							}
-						}
+					if in == ssa.Instruction(parse.appendCall) {
+						appended = true
 					}
 				}
 				if !appended {
@@ -145,7 +136,7 @@ func runC18(p *Program, r *Result) {
 				continue
 			}
 			// CLI: unsupported SSH key type skipped with a warning
-			_, parseFailed := errFactFor(atoms, parse, false)
+			parseFailed := parse.errIs(atoms, false)
 			_, sshOK := findFact(atoms, func(a Atom) bool {
 				return a.Kind == "bool" && a.Pol && strings.HasSuffix(a.X.String(), ".1") && strings.Contains(a.X.String(), ".sshKeyType(")
 			})
@@ -163,7 +154,7 @@ func runC18(p *Program, r *Result) {
 		if nCont == 0 && bad == "" {
 			bad = "no continuing path found"
 		}
-		r.Check(bad == "", fn.String(), "iteration-paths", r.pos(parse), itoa(nCont)+" continuing paths, each accounted for", bad)
+		r.Check(bad == "", fn.String(), "iteration-paths", r.pos(parse.appendCall), itoa(nCont)+" continuing paths, each accounted for", bad)
 
 		// ---- R18.2
 		r.cur = "R18.2"
@@ -184,7 +175,7 @@ func runC18(p *Program, r *Result) {
 				continue
 			}
 			facts := tb.FactsAt(ret.Block())
-			if _, ok := errFactFor(facts, parse, false); !ok {
+			if !parse.errIs(facts, false) {
 				continue
 			}
 			// skip the SSH-skip branch (not a return)
@@ -227,12 +218,7 @@ func runC18(p *Program, r *Result) {
 					if !isC || !isBuiltin(&c.Call, "append") {
 						continue
 					}
-					has := false
-					for _, sub := range tb.Term(c).Find("Ext") {
-						if sub.Args[0].V == ssa.Value(parse) && sub.S == "0" {
-							has = true
-						}
-					}
+					has := c == parse.appendCall
 					ph, isPhi := stripConv(c.Call.Args[0]).(*ssa.Phi)
 					if !has || !isPhi || ph.Block() != loop.Header {
 						continue
@@ -401,4 +387,159 @@ func phiContains(v ssa.Value, want *ssa.Phi) bool {
 		return false
 	}
 	return rec(ph)
+}
+
+// lineParse is the per-line parse of a key-file scanner: the value appended to the result and
+// the error that goes with it — the two results of one call of the line parser, or, when the
+// parser is spliced into the loop, the merge of its returns.
+type lineParse struct {
+	appendCall *ssa.Call
+	val, err   ssa.Value
+	errIfs     map[*ssa.If]bool
+}
+
+// errIs: the facts say that the parse error is nil (wantNil) / non-nil.
+func (lp *lineParse) errIs(facts []Atom, wantNil bool) bool {
+	for _, a := range facts {
+		if a.Kind == "cmp" && a.Y != nil && a.Y.Op == "Nil" && a.If != nil && lp.errIfs[a.If] && (a.Op == "==") == wantNil {
+			return true
+		}
+	}
+	return false
+}
+
+func findLineParse(p *Program, fn *ssa.Function, loop *natLoop, parser string, line ssa.Value) *lineParse {
+	if line == nil {
+		return nil
+	}
+	for b := range loop.Blocks {
+		for _, in := range b.Instrs {
+			c, ok := in.(*ssa.Call)
+			if !ok || !isBuiltin(&c.Call, "append") || len(c.Call.Args) != 2 {
+				continue
+			}
+			if ph, isPhi := stripConv(c.Call.Args[0]).(*ssa.Phi); !isPhi || ph.Block() != loop.Header {
+				continue
+			}
+			// the appended element: append(ids, v) compiles to a one-element slice literal
+			var val ssa.Value
+			if sl, isSl := c.Call.Args[1].(*ssa.Slice); isSl {
+				if al, isAl := sl.X.(*ssa.Alloc); isAl {
+					for _, r := range *al.Referrers() {
+						if ia, isIA := r.(*ssa.IndexAddr); isIA && ia.Referrers() != nil {
+							for _, rr := range *ia.Referrers() {
+								if st, isSt := rr.(*ssa.Store); isSt && st.Addr == ssa.Value(ia) {
+									val = st.Val
+								}
+							}
+						}
+					}
+				}
+			}
+			if val == nil {
+				continue
+			}
+			for {
+				switch x := val.(type) {
+				case *ssa.MakeInterface:
+					val = x.X
+					continue
+				case *ssa.ChangeInterface:
+					val = x.X
+					continue
+				}
+				break
+			}
+			val = stripConv(val)
+			lp := &lineParse{appendCall: c, val: val, errIfs: map[*ssa.If]bool{}}
+			fromParser := func(v ssa.Value) (*ssa.Call, bool) {
+				ex, ok := v.(*ssa.Extract)
+				if !ok || ex.Index != 0 {
+					return nil, false
+				}
+				pc, ok := ex.Tuple.(*ssa.Call)
+				if !ok || len(pc.Call.Args) == 0 || stripConv(pc.Call.Args[0]) != line {
+					return nil, false
+				}
+				return pc, true
+			}
+			errVals := map[ssa.Value]bool{}
+			errOf := func(pc *ssa.Call) {
+				for _, r := range *pc.Referrers() {
+					if ex, ok := r.(*ssa.Extract); ok && isErrorType(ex.Type()) {
+						errVals[ex] = true
+						if lp.err == nil {
+							lp.err = ex
+						}
+					}
+				}
+			}
+			switch v := val.(type) {
+			case *ssa.Extract:
+				pc, ok := fromParser(v)
+				if !ok || calleeName(&pc.Call) != parser {
+					continue
+				}
+				errOf(pc)
+			case *ssa.Phi:
+				// the spliced parser: every non-nil incoming value is the first result of a call on the line
+				good := len(v.Edges) > 0
+				for _, e := range v.Edges {
+					if isNilConst(e) {
+						continue
+					}
+					pc, ok := fromParser(stripConv(e))
+					if !ok {
+						good = false
+						break
+					}
+					errOf(pc)
+				}
+				if !good {
+					continue
+				}
+				for _, in2 := range v.Block().Instrs {
+					if ph2, ok := in2.(*ssa.Phi); ok && isErrorType(ph2.Type()) {
+						lp.err = ph2
+						errVals[ph2] = true
+						for _, e := range ph2.Edges {
+							errVals[stripConv(e)] = true
+						}
+					}
+				}
+			default:
+				continue
+			}
+			if lp.err == nil {
+				continue
+			}
+			for _, bb := range fn.Blocks {
+				ifi, ok := bb.Instrs[len(bb.Instrs)-1].(*ssa.If)
+				if !ok {
+					continue
+				}
+				cond := ifi.Cond
+				for {
+					if u, isNot := cond.(*ssa.UnOp); isNot && u.Op == token.NOT {
+						cond = u.X
+						continue
+					}
+					break
+				}
+				bo, ok := cond.(*ssa.BinOp)
+				if !ok || (bo.Op != token.EQL && bo.Op != token.NEQ) {
+					continue
+				}
+				x, y := bo.X, bo.Y
+				if isNilConst(x) {
+					x, y = y, x
+				}
+				if isNilConst(y) && (errVals[x] || errVals[stripConv(x)]) {
+					lp.errIfs[ifi] = true
+				}
+			}
+			return lp
+		}
+	}
+	return nil
 }
